@@ -31,7 +31,7 @@ CLAIMS = {
          'The 51 polysmallmod primitives these operations call are proved exact (unit c06_polymod*). '
          'Multiplication: bgv_multiply / ckks_multiply / multiply_inplace / multiply / multiply_new produce, in every RNS word, the ciphertext convolution sum_{a+b=i} c1[a](.)c2[b] mod q_j accumulated in index order (with a lemma that the index pairs visited are exactly those with a+b=i inside both operands), '
          'the BGV correction factor is the product mod t, operands on different levels or in coefficient form are refused (unit c02_mul); for BFV the lifting of both operands to base q and Bsk in NTT form (BEHZ steps 1-3) is checked as fragments with abstract RNS tools (unit c02_bfvmul). '
-         'Relinearisation shares the mod-down fragments of key switching (unit c04_kswitch). Not covered: BEHZ steps 4-8 of bfv_multiply, squaring (unsafe aliasing), the accumulation half of key switching, plaintext-operand variants, that word-level results decrypt to the ring operation (needs NTT/CRT theory and noise analysis).', '5 C02'),
+         'Relinearisation shares the mod-down fragments of key switching (unit c04_kswitch). The BEHZ tools bfv_multiply calls (fastbconv_m_tilde, sm_mrq, fast_floor, fastbconv_sk) are proved word by word in unit c10_behz. Not covered: BEHZ steps 4-8 of bfv_multiply as a whole, squaring (unsafe aliasing), the accumulation half of key switching, plaintext-operand variants, that word-level results decrypt to the ring operation (needs NTT/CRT theory and noise analysis).', '5 C02'),
  'C03': ('The scale-bookkeeping half of the property, as contracts on the evaluator code (floats are opaque: WHICH float operation is applied to WHICH operands is what is proved, not its value): '
          'ckks_multiply records exactly scale(a)*scale(b) and refuses (no normal return) when Evaluator::is_scale_within_bounds fails; is_scale_within_bounds compares floor(log2(scale)) with the total coefficient-modulus bit count of the level for CKKS and the plain-modulus bit count for BFV/BGV; '
          'rescale_to_next / rescale_to divide the scale by each dropped prime, in chain order, and mod_switch leaves it unchanged (unit c05_switch); add / sub refuse operands whose scales are not close and operands on different levels (unit c02_translate); '
@@ -64,7 +64,11 @@ CLAIMS = {
          'of the algorithm (all lazy additions shown free of overflow, every slice in bounds), and two spec-level theorems give the integer reading: if the input residues are those of one integer X then each output word is '
          'floor((X + q_k/2)/q_k) mod q_i (round to nearest, identically in every component), respectively Y mod q_i with q_k*Y = X (mod t) for the BGV variant. '
          'The NTT-form variants (divide_and_round_q_last_ntt_inplace, mod_t_and_divide_q_last_ntt_inplace) are proved word by word against the same formulas with the forward/inverse transforms as uninterpreted functions of (table, input) with their documented ranges: the rounding constant q_k/2, its correction, the negation and q_k^-1 steps and the table index used for each component are pinned. '
-         'ASSUMED: the constants RNSTool::new stores (inv_q_last_mod_q etc.) equal their definitions; linearity of the NTT (so the NTT-form result is the transform of the coefficient-form result) is not used or proved. Not covered yet: decompose/compose (CRT), fast base conversion, the BEHZ tools (sm_mrq, fast_floor, fastbconv_sk), scale-and-round decryption, exact_convey (uses f64).', '5 C10'),
+         'ASSUMED: the constants RNSTool::new stores (inv_q_last_mod_q etc.) equal their definitions; linearity of the NTT (so the NTT-form result is the transform of the coefficient-form result) is not used or proved. '
+         'Fast base conversion and the BEHZ tools (unit c10_behz): BaseConverter::fast_convert_array returns in word (i, j) exactly (sum_l [x_l * (Q/q_l)^-1]_{q_l} * [Q/q_l]_{p_i}) mod p_i for every base size and coefficient count (the two-word dot product shown free of overflow for up to 64 primes of up to 61 bits), and refuses inconsistent lengths; '
+         'fastbconv_m_tilde (scale by m_tilde, convert q -> Bsk and q -> {m_tilde}), sm_mrq ((x + q*[-x*q^-1]_centered) * m_tilde^-1 per Bsk prime), fast_floor ((x_Bsk - FastBConv(x_q)) * q^-1) and fastbconv_sk (Shenoy-Kumaresan with the centered alpha correction) are proved word by word against these formulas. '
+         'ASSUMED: shapes and operands stored by RNSBase::initialize / RNSTool::new (sizes, operand quotients, Bsk = B U {m_sk}, m_tilde below every Bsk prime). '
+         'Not covered yet: that these word formulas compose to the exact centered integer result (BEHZ error analysis), decompose/compose (CRT), scale-and-round decryption, exact_convey (uses f64), RNSTool::new.', '5 C10'),
  'C16': ('Two groups of contracts. (1) BlakeRNG as a data structure with an abstract view: the generator is a position in ONE byte stream determined by the seed (block c of the stream is the BLAKE3 XOF of seed||le64(c), the XOF being an uninterpreted function); '
          'representation invariant (the buffer holds block counter-1, buffer_current bytes consumed) established by from_seed and preserved by refill_buffer, fill_bytes, next_u32, next_u64; fill_bytes hands out exactly the next |dest| stream bytes and advances the position by |dest| '
          '(so output does not depend on how reads are chunked: a corollary of the contract), next_u32/next_u64 read the next 4/8-aligned little-endian word. '
